@@ -179,6 +179,25 @@ claim("C09", "S2",
       "C01-R4; lexical enclosure is used (a guard established dynamically by an unrelated caller is not credited).",
       "ast taint fixpoint over user callables + enclosing-handler analysis")
 
+claim("C39", "S3",
+      "Exhaustive delegation agreement over the 131 fluent methods of the 11 mixins and the ~130 public operators: each "
+      "fluent method applies, to self, the operator its own name resolves to (aliases resolved, self.other() followed "
+      "one level); every parameter is forwarded by positional role / name exactly once, unchanged, omitted only under a "
+      "guard on it, with equal defaults; the same from each public operator to its implementation.",
+      "The operator function of the same name is the reference; cast() and single-assignment aliases are transparent. "
+      "One recorded known finding (UtilityMixin.do).",
+      "ast abstract evaluation of wrappers + signature binding (parameter-to-parameter forwarding)")
+
+claim("C07", "S3",
+      "slice_ is evaluated symbolically (own evaluator over its AST, nothing imported or run) to the pipeline it composes "
+      "for every start/stop in {None, -5..5} (domain sized from the constants it compares with) and step in {None,1,2,3}; "
+      "the pipeline's index semantics under reference models of the positional operators is compared with list slicing "
+      "for every length 0..8 - all relative orders of |start|, |stop| and n. Observable.__getitem__'s integer and slice "
+      "forms are evaluated the same way.",
+      "Reference models of take/skip/take_last/skip_last/indexed filter+map are trusted here (their own list semantics "
+      "is C05); step >= 1.",
+      "symbolic evaluation of the AST + exhaustive small-domain comparison with list slicing")
+
 na("C15", "arithmetic over run-time timestamps (queue ordering by timestamp + duetime, 'exactly d later'); no structural "
           "clause that is both necessary and robust beyond ownership/guarding/falsy rules already decided under "
           "C02/C03/C08/C09, whose scope includes these files")
